@@ -94,3 +94,9 @@ Theorem C12_parse_leaves_contiguous : forall nls tm m ch,
              contig (bound (map snd tm) 0) ms = Some (bound (map snd tm) (length tm)).
 Proof. exact parse_leaves_contiguous. Qed.
 Print Assumptions C12_parse_leaves_contiguous.
+
+(** [position_segments] does not panic on valid input (every marker it has to read exists). *)
+Theorem C12_position_segments_total : forall nls segs parent,
+  forallb preb segs = true -> exists out, position_segments nls segs parent = Some out.
+Proof. exact position_segments_total. Qed.
+Print Assumptions C12_position_segments_total.
